@@ -130,6 +130,11 @@ def tmp_worktree(repo: str | Path = ".", ref: str = "HEAD") -> Iterator[Path]:
         try:
             yield Path(location)
         finally:
-            subprocess.run(["git", "-C", repo, "worktree", "remove", location], stdout=subprocess.DEVNULL, check=False)
+            # Force removal: loading can leave untracked files in the worktree (bytecode caches for example).
+            subprocess.run(
+                ["git", "-C", repo, "worktree", "remove", "--force", location],
+                stdout=subprocess.DEVNULL,
+                check=False,
+            )
             subprocess.run(["git", "-C", repo, "worktree", "prune"], stdout=subprocess.DEVNULL, check=False)
             subprocess.run(["git", "-C", repo, "branch", "-D", tmp_branch], stdout=subprocess.DEVNULL, check=False)
